@@ -8,7 +8,8 @@ def run(ck):
     ck.run_fixed({"failed_subscription_leaves_nothing": "C10:dispatch-raised",
                   "redispatched_event_is_stamped_again": "C10:stamp",
                   "one_stream_over_equal_owners": "C10:not-subscribed",
-                  "dead_iterator_inside_its_block_disturbs_nobody": "C10:dispatch-raised"})
+                  "dead_iterator_inside_its_block_disturbs_nobody": "C10:dispatch-raised",
+                  "queued_event_keeps_its_source": "C10:stamp"})
 
 
 def replay(ck, obj):
